@@ -268,17 +268,21 @@ class C05(Prop):
     assumptions = ["the records handed to __attrs are exactly what the model's lowering (lower_attr / and_attrs / map_params) "
                    "produces for the tag's sources: checked per case by the correspondence run, not proved",
                    "a data map reaches __and_attrs as a Map without explicit order, whose Keys() are sorted bytewise (repair "
-                   "F-C05-c); the entries are given to the model in an arbitrary order"]
-    not_yet_proved = [
-        "C05_spec (source level): parse_attrs (render_attrs (lower srcs)) = Some (attr_spec srcs) for all srcs with dom_C05 srcs = true "
-        "- stated as the judge's oracle and checked on every correspondence case and in Example ex_spec_holds, not proved in general; "
-        "proved instead for all record lists: C05_grammar, C05_value_roundtrip, C05_collect_closed, C05_once_in_order, "
-        "C05_rendered_closed, C05_bool_nil, C05_class_accumulates, C05_reader",
-        "C05_class_merge: closed form of the joined class text (pieces joined by one space, empty pieces dropped) - only the "
-        "accumulation of class records in source order is proved (C05_class_accumulates)",
-        "C05_spread_order: invariance of and_attrs (data_map items) under permutations of items (needs uniqueness of the sorted "
-        "list) - not proved; every case is rendered in 3 fresh processes and must give the model's (sorted) order each time",
-    ]
+                   "F-C05-c); the entries are given to the model in an arbitrary order (C05_spread_order: the order does not "
+                   "matter to the model; every case is still rendered in 3 fresh processes)",
+                   "C05_spec holds on dom_C05: proper attribute names, values without NUL, integers below 10^10, no true among "
+                   "class values, arrays only for class, unescaped attributes only with plain string literals (else F-C05-d), "
+                   "distinct keys per spread object, non-class names of a mixin call distinct, no class entry repeating an "
+                   "earlier one verbatim; outside it a case is judged only for agreement with the model (agree / drift / known "
+                   "finding), never as a violation"]
+    # C05_spec, C05_class_merge and C05_spread_order are proved for all source lists (Props/C05.v: C05_spec,
+    # C05_spec_partial, C05_class_merge, C05_class_closed, C05_spread_order, C05_spread_order_src); where the faithful
+    # model forces a hypothesis the witness is a theorem: C05_spec_refuted (F-C05-d, unescaped non-literal value),
+    # C05_spec_dup_class_refuted (.a.a renders class="a": __attrs drops a class entry equal to an earlier one),
+    # C05_spread_order_unrepaired_refuted (Keys() in Go map order, before the repair F-C05-c); further boundary
+    # witnesses of dom_C05 in Proofs/AttrsProofs.v: ex_class_true_outside_domain, ex_nul_outside_domain,
+    # ex_array_nonclass_outside_domain
+    not_yet_proved = []
 
     def generate(self, rng, n, tier):
         return [gen_case(rng, tier) for _ in range(n)]
